@@ -8,9 +8,14 @@ UnitPairsQ == { <<"1","1","1","1">>, <<"3","1","1","1">>, <<"1","1","12","1">>, 
                 <<"5","9","1","1">>, <<"1000","1","1","1">>, <<"254","100","1","12">>, <<"1","1","1000000","1">> }
 UnitPairsT == UnitPairsQ \cup { <<"1609344","1000","1","1">>, <<"1","1000000","1","1000">>, <<"7","5","11","3">>, <<"1","1","1000000000","1">>, <<"1","60","1","1000">>,
                                 <<"1000225","1","1","1">>, <<"1000226","1","1","1">>, <<"15","1","1","1">>, <<"16","1","1","1">>, <<"1","1","4296167339476840","1">> }
+RepPairsF == { <<"f32","f32">>, <<"f64","f64">>, <<"f32","f64">>, <<"f64","f32">>, <<"i32","f64">>, <<"f32","i64">>, <<"u16","f32">>, <<"f64","u64">>, <<"f80","f64">>, <<"i8","f32">> }
+FContract(r1, n1, d1, r2, n2, d2) ==
+  [k |-> "mixedf", R1 |-> r1, R2 |-> r2, N1 |-> ToDec(n1), D1 |-> ToDec(d1), N2 |-> ToDec(n2), D2 |-> ToDec(d2),
+   K1 |-> ToDec(Cof1(n1, d1, n2, d2)), K2 |-> ToDec(Cof2(n1, d1, n2, d2)), RC |-> CommonType(r1, r2), enabled |-> TRUE]
 UnitPairs == IF Tier = "quick" THEN UnitPairsQ ELSE UnitPairsT
 VARIABLES rp, up
-Init == rp \in RepPairs /\ up \in UnitPairs
+Init == rp \in (RepPairs \cup RepPairsF) /\ up \in UnitPairs
 Next == UNCHANGED <<rp, up>>
-Emit == PrintT(<<"CASE", ToJson(MixedContract(rp[1], BI(up[1]), BI(up[2]), rp[2], BI(up[3]), BI(up[4])))>>)
+Emit == IF rp \in RepPairsF THEN PrintT(<<"CASE", ToJson(FContract(rp[1], BI(up[1]), BI(up[2]), rp[2], BI(up[3]), BI(up[4])))>>)
+        ELSE PrintT(<<"CASE", ToJson(MixedContract(rp[1], BI(up[1]), BI(up[2]), rp[2], BI(up[3]), BI(up[4])))>>)
 ====
